@@ -15,7 +15,11 @@ from mirsmt.values import Cell, Lazy, Adt, Ref, Obj, UNIT, bv, conc
 from mirsmt.interp import Inconclusive, PathEnd
 
 
-DEFS = [dict(groups=0, names=[None]), dict(groups=1, names=[None, 'n']), dict(groups=2, names=[None, None, 'x'])]
+DEFS_A = [dict(groups=0, names=[None]), dict(groups=1, names=[None, 'n']), dict(groups=2, names=[None, None, 'x'])]
+# definitions 0 and 2 have the same group structure: their regex TEXTS may be identical (a symbolic Boolean) while their
+# locations differ - the same step definition written in two places
+DEFS_B = [dict(groups=0, names=[None]), dict(groups=1, names=[None, 'n']), dict(groups=0, names=[None])]
+DEFS = DEFS_A
 
 
 def body(chk):
@@ -44,7 +48,16 @@ def body(chk):
             obs[name].verdict = 'holds'
         return obs[name]
     npaths = [0]
-    for layout in layouts:
+    reg_body = {}
+    for k in ('given', 'when', 'then'):
+        c = [b for (st, m), lst in prog.by_method.items() if st == 'Collection' and m == k for tr, b in lst]
+        if len(c) != 1:
+            raise Inconclusive('step::Collection::%s: %d candidates' % (k, len(c)))
+        reg_body[k] = c[0]
+    global DEFS
+    runs = [(l, DEFS_A) for l in layouts] + [(l, DEFS_B) for l in (('given', 'when', 'given'), ('given', 'given', 'given'), ('then', 'when', 'then'))]
+    for layout, DEFS in runs:
+        same_text = z3.Bool('same-regex-text(0,2)') if DEFS is DEFS_B else z3.BoolVal(False)
         ex, M = chk.new_exec(loop_bound=16, max_paths=6000)
         matched = [z3.Bool('matched%d' % i) for i in range(3)]
         part = {(i, g): z3.Bool('participates(%d,%d)' % (i, g)) for i in range(3) for g in range(1, DEFS[i]['groups'] + 1)}
@@ -134,19 +147,32 @@ def body(chk):
             return orig_map(ex_, info, a, dty)
         M.table['Iterator::map'] = map_range
 
-        def run(ex_, layout=layout, M=M):
+        def obj_eq(ex_, a, b, same_text=same_text):
+            # key equality of the registration maps: regexes compare by TEXT (HashableRegex), locations by value
+            if a.kind != b.kind:
+                raise Inconclusive('comparison of %r and %r' % (a, b))
+            if a.d['d'] == b.d['d']:
+                return z3.BoolVal(True)
+            if a.kind == 'regex' and {a.d['d'], b.d['d']} == {0, 2}:
+                return same_text
+            return z3.BoolVal(False)
+        M.obj_eq = obj_eq
+
+        def run(ex_, layout=layout, M=M, same_text=same_text, DEFS=DEFS):
             ex_.add(z3.ULT(kwd, bv(3)))
-            maps = {k: [] for k in ('given', 'when', 'then')}
+            # identical regex texts match the same step texts
+            ex_.add(z3.Implies(same_text, matched[0] == matched[2]))
+            # the Collection is built through the real registration methods, in definition order (the maps iterate in
+            # every order anyway): whatever key the maps use is the code's own
+            coll = Adt('step::Collection<W>', {(None, CF.index(k)): M.new_assoc('?', '?', []) for k in ('given', 'when', 'then')})
             for i, k in enumerate(layout):
-                key = Adt('(HashableRegex, Option<Location>)', {(None, 0): Adt('step::HashableRegex', {(None, 0): Obj('regex', d=i)}),
-                                                                 (None, 1): Adt('Option<step::Location>', {(1, 0): Obj('loc', d=i)}, 1)})
-                maps[k].append((key, Obj('stepfn', d=i)))
-            coll = Adt('step::Collection<W>', {(None, CF.index(k)): M.new_assoc('(HashableRegex, Option<Location>)', 'Step<W>', maps[k]) for k in maps})
+                loc = Adt('Option<step::Location>', {(1, 0): Obj('loc', d=i)}, 1)
+                coll = ex_.call_body(reg_body[k], [coll, loc, Obj('regex', d=i), Obj('stepfn', d=i)])
             step = Adt('gherkin::Step', {(None, SF.index('ty')): Adt('gherkin::StepType', {}, kwd), (None, SF.index('value')): Obj('symstr', name='step.value')}, None, 'step')
             out = ex_.call_body(find, [Ref(Cell(coll, name='collection'), ()), Ref(Cell(step, name='step'), ())])
             return {'out': ex_.materialize(out), 'tried': [e['d'] for e in ex_.env.get('log', []) if e['kind'] == 'regex_tried']}
 
-        def on_end(ex_, rec, layout=layout, M=M):
+        def on_end(ex_, rec, layout=layout, M=M, DEFS=DEFS):
             kind, res, pc, dec = rec
             npaths[0] += 1
             if kind != 'ok':
@@ -243,6 +269,7 @@ def body(chk):
     need = {'no-match=>not-found', 'several-matches=>ambiguity-error-listing-all-candidates-sorted', 'one-match=>that-definition-with-whole-match-and-all-groups-in-order'}
     w.verdict = 'witness-ok' if need <= set(obs) and npaths[0] >= 100 else 'witness-missing'
     w.detail = '%d paths' % npaths[0]
+    DEFS = DEFS_A
     chk.assumptions += ['the regex engine is an oracle (match verdict, group participation and spans symbolic; group count / names fixed per definition); multi-byte text is outside the claim',
                         'definitions carry regex texts r0 < r1 < r2, so sorting by (regex, location) is sorting by definition index']
 
